@@ -184,6 +184,45 @@ class BestEval(Unit):
 UNITS = [BestEval()]
 
 
+# ---- bounded complement of the unit above (the solvers rarely refute a tier clause over the quantified float axioms) -------------------
+class BestEvalBounded(Unit):
+    name = "besteval.bounded"
+    props = ("C03", "C02", "C07", "C09", "C08")
+    fmodel = "ORDER"
+    functions = [("cobyqa.problem", "Problem.best_eval")]
+    replay = ("contracts.replays", "best_eval")
+    bounded = ("native run-time contract on 4000 seeded filters (1..7 entries; objective values and violations with many exact ties, NaN, "
+               "+-inf, values at the feasibility tolerance; penalty 0 or positive): the entry returned is the one the six-tier rule "
+               "prescribes, no exception")
+
+    def run(self, c):
+        import os
+        import numpy as np
+        from pyvc.transform import ensure_repo_on_path
+        from .subsolvers_bounded import rng_for
+        from .replays import best_eval
+        ensure_repo_on_path()
+        rng = rng_for(self.name)
+        N = 40000 if os.environ.get("VERIF_TIER") == "thorough" else 4000
+        bad = None
+        tol = 0.5
+        enc = lambda v: "nan" if v != v else ("inf" if v == np.inf else ("-inf" if v == -np.inf else float(v)))
+        for k in range(N):
+            L = int(rng.integers(1, 8))
+            fs = rng.choice([0.0, 1.0, 2.0, -1.0, 3.0, np.nan, np.inf, -np.inf], size=L, p=[0.2, 0.2, 0.15, 0.15, 0.1, 0.08, 0.06, 0.06])
+            ms = rng.choice([0.0, 0.25, 0.5, 1.0, 2.0, 3.0, np.nan, np.inf], size=L, p=[0.15, 0.1, 0.15, 0.2, 0.15, 0.1, 0.08, 0.07])
+            case = dict(F=[enc(v) for v in fs], M=[enc(v) for v in ms], feasibility_tol=tol, penalty=float(rng.choice([0.0, 1.0, 10.0])))
+            r = best_eval(**case)
+            if r["reproduced"] and bad is None:
+                bad = (k, case, r["observed"])
+        c.oblige(f"C03.best_eval.returns_the_prescribed_entry[{N} cases]", z3.BoolVal(bad is None), kind="bounded",
+                 props=["C03", "C02", "C07", "C09", "C08"],
+                 note=None if bad is None else f"case {bad[0]}: {bad[2]}"[:1200], replay_inputs=None if bad is None else bad[1])
+
+
+UNITS.append(BestEvalBounded())
+
+
 # ---- C03.O3: lemma over the contracts ------------------------------------------------------------------------------
 class ReturnedPointLemma(Unit):
     """COVER (invariant of Problem.__call__) + the selection rule (postcondition of best_eval) => the two clauses of the statement
